@@ -282,12 +282,12 @@ def rule_looppair(P):
             if isinstance(a, ast.For):
                 loops.append(norm(a.iter))
         guards = set()
-        for ft in W.guard_facts(node):
+        for ft in W.cguard_facts(f.node, node):
             if ft.kind == "assert" or not W._within(ft.origin, outer) or ft.origin is outer:
                 continue
             if kname in {x.id for x in ast.walk(ft.test) if isinstance(x, ast.Name)}:
                 continue
-            guards.add((norm(ft.test), ft.pol))
+            guards.add(W.cfact_text(ft))
         return tuple(reversed(loops)), frozenset(guards)
 
     counts = [n for n in walk_live(outer) if isinstance(n, ast.AugAssign) and W.is_name(n.target, kname)]
@@ -307,14 +307,14 @@ def rule_looppair(P):
             near = [cs for cs in csig if cs[0] == s[0]]
             if near:
                 d = set(near[0][1]) ^ set(s[1])
-                miss = "; guards that differ: " + ", ".join(("" if p else "not ") + t for t, p in sorted(d))
+                miss = "; guards that differ: " + ", ".join(sorted(d))
         for e in es:
             wt = e.args[-1]
             okw = norm(wt) == f"1 / {kname}"
             r.add(f, e, ok and okw,
                   "" if ok and okw else (f"`{first_line(e)}` is emitted for iterations that the fan-out count did not count{miss}: the "
                                          f"state's outgoing mass is not 1" if not ok else f"weight `{norm(wt)}` is not 1/{kname}"),
-                  slots=dict(loops=list(s[0]), guards=sorted(("" if p else "not ") + t for t, p in s[1])),
+                  slots=dict(loops=list(s[0]), guards=sorted(s[1])),
                   witness="interegular_to_wfsa('(?i:ß)'): state mass 2.0, arc label 'SS' (DESIGN §5 D14)" if not ok else None)
     unmatched_emit_loops = {s[0] for s in esig if s not in csig}
     for s, cs in csig.items():
@@ -352,12 +352,19 @@ def rule_enc_utf8(P):
             r.add(f, st, ok, "" if ok else f"`{first_line(st)}` does not encode with UTF-8")
 
         def from_src(e):
+            if isinstance(e, ast.Name) and e.id not in src:
+                v = W.single_def(f.node, e.id)
+                if v is not None and isinstance(v, ast.Subscript):
+                    return from_src(v)
             if isinstance(e, ast.Name):
                 if e.id in src:
                     return True
                 for a in ancestors(e):
                     if isinstance(a, ast.For) and W.is_name(a.target, e.id):
                         it = a.iter
+                        if isinstance(it, ast.Name) and it.id not in src:
+                            v = W.single_def(f.node, it.id)
+                            it = v if v is not None else it
                         base = it.value if isinstance(it, ast.Subscript) else it
                         return isinstance(base, ast.Name) and base.id in src
                 return False
